@@ -15,6 +15,8 @@ func init() {
 	// constructs that swallow an operand's control on purpose
 	for _, e := range [][2]string{
 		{"node.(TryStatement).GetValue#dropped:c", "the pending control of the try/catch part is held across the finally block on purpose and returned after it; a control raised by finally itself replaces it (PHP semantics)"},
+		{"node.(TryStatement).GetValue#dropped-at-return:c", "same construct when the finally loop lives in a helper: the exit that returns finally's own control leaves the pending one behind on purpose (PHP semantics)"},
+		{"node.(TryStatement).GetValue#swallowed:c", "same construct: the pending control is known non-nil while finally runs, and finally's own control replaces it (PHP semantics)"},
 		{"node.(CallMethod).handleFuncValue#discarded:argObj.GetValue", "binds a parameter's default value; default initialisers are constant expressions and raise no loop exit or return"},
 		{"node.(ClassMethod).Call#swallowed:ctl", "a failing __toString() during return-type coercion is replaced by the return-type error thrown two lines below"},
 		{"node.(CompactStatement).GetValue#swallowed:ctl", "compact() skips names that are not set; the lookup is a variable read, not a statement"},
@@ -1426,6 +1428,27 @@ func c02Order(r *Run, npkg *packages.Package) {
 						byCounter := false
 						if id, ok := ast.Unparen(x.Index).(*ast.Ident); ok && induction[info.Uses[id]] {
 							byCounter = true // indexed by the counter of an ascending loop: a walk in source order
+						}
+						// at := slices.IndexFunc(t.f, pred); t.f[at]: the library walked the branches in source
+						// order and at is the first one whose condition held
+						if id, ok := ast.Unparen(x.Index).(*ast.Ident); ok && !byCounter {
+							o := info.Uses[id]
+							ast.Inspect(fd.Body, func(k ast.Node) bool {
+								as, ok := k.(*ast.AssignStmt)
+								if !ok || len(as.Lhs) != 1 || len(as.Rhs) != 1 {
+									return true
+								}
+								lid, ok := as.Lhs[0].(*ast.Ident)
+								if !ok || (info.Defs[lid] != o && info.Uses[lid] != o) {
+									return true
+								}
+								if c, ok := ast.Unparen(as.Rhs[0]).(*ast.CallExpr); ok && len(c.Args) == 2 && fieldOf(c.Args[0]) == f {
+									if cal := calleeFunc(info, c); cal != nil && cal.Pkg() != nil && cal.Pkg().Path() == "slices" && cal.Name() == "IndexFunc" {
+										byCounter = true
+									}
+								}
+								return true
+							})
 						}
 						if loops[f] || byCounter {
 							r.ok(key, x.Pos(), "the branch is picked inside the loop that walks "+f.Name()+" in source order")
